@@ -311,8 +311,34 @@ def module_jacobian(m, th):
     return torch.autograd.functional.jacobian(f, th, vectorize=False).detach().numpy().reshape(-1, th.numel())
 
 
+def probe_buffer_reuse(ctx):
+    """hardening class "buffer reuse across calls" (harness/mani_reuse.py) on what this check differentiates: forward() of two modules of the same class /
+    options (interleaved) and the functional map on two parameter vectors of the same length, for every configuration with d <= 3: the first result must be
+    unchanged bit for bit after the second call, the two must not share memory, and overwriting a result in place must not change later calls.
+    Deterministic, quick tier."""
+    import torch
+    from . import mani_reuse as MR
+    rng = np.random.default_rng(20260930)
+    for c in configs([2, 3]):
+        torch.manual_seed(int(rng.integers(1 << 30)))
+        m1, m2 = guarded(lambda: c['mk'](None)), guarded(lambda: c['mk'](None))
+        if isinstance(m1, str) or isinstance(m2, str):
+            ctx.fail('constructor-raises', f"{c['name']}: {m1 if isinstance(m1, str) else m2}", dict(name=c['name'])); continue
+        def fw(m):
+            with torch.no_grad():
+                return m()
+        th = lambda m: [float(x) for x in m.theta.detach().reshape(-1)]
+        MR.check(ctx, f"{c['name']}.forward", lambda: fw(m1), lambda: fw(m2), history=[dict(module=c['name'], theta=th(m1)), dict(module=c['name'], theta=th(m2))])
+        if 'scalar' not in c:
+            n = int(m1.theta.shape[-1])
+            tA, tB = torch.randn(n, dtype=torch.float64), torch.randn(n, dtype=torch.float64)
+            MR.check(ctx, f"{c['name']}.functional", lambda: c['fn'](tA.clone()), lambda: c['fn'](tB.clone()),
+                     history=[dict(map=c['name'], theta=tA.tolist()), dict(map=c['name'], theta=tB.tolist())])
+
+
 def probe(ctx):
     import torch
+    probe_buffer_reuse(ctx)
     rng = np.random.default_rng(ctx.np_seed + 5)
     dims = [2, 3, 4, 5]
     cfgs = configs(dims)
